@@ -102,8 +102,8 @@ def generate(tier, rng):
                                           layout=dict(lay, omit_single=(k % 2 == 0), value_name="value", row_perm=None, col_perm=None, csv=False),
                                           allow_missing=am, allow_extra=ae, via=via))
                         # the same table with row labels of its own that repeat (put together from pieces): rows are rows, whatever their labels
-                        if li == 0 and via in ("from_df", "set_values_from_df"):
-                            c = dict(cases[-1])
+                        if li == 0:
+                            c = dict(cases[-1], via=(via if via in ("from_df", "set_values_from_df") else "from_df"))
                             c["layout"] = dict(c["layout"], row_labels=["pairs", "same", "from1"][k % 3])
                             cases.append(c)
         # layout-level faults
